@@ -10,6 +10,7 @@ import fiddle as fdl
 from fiddle._src import config as config_lib
 from fiddle._src import daglish
 from fiddle._src.experimental import daglish_legacy
+from fiddle._src.experimental import serialization
 
 from harness import common, l2, c02
 from harness.common import Failure, Result, Stream, g_list, g_pair, g_nat, g_Z, g_N
@@ -421,6 +422,116 @@ def temporary_leaves_case(rng, res, label):
                                 f"{sum(want)}", replay))
 
 
+def late_registration_case(rng, res, label):
+  """A user class becomes a node type AFTER traversals (through the default registry, through a registry that
+  falls back to it, and through Fiddle's own defaults-aware registry used by ==) have already seen it as a
+  leaf.  From the registration on, every traversal through every one of those registries must descend into
+  it: sound and complete paths, all paths of a shared object, faithful identity rebuild."""
+  width = rng.randint(1, 4)
+  fields = [f"f{i}" for i in range(width)]
+  Box = type(f"Box_{label.replace('#', '_')}", (), {
+      "__init__": lambda self, *vals: [setattr(self, f, v) for f, v in zip(fields, vals)] and None})
+  shared = [1, rng.randint(0, 9)]
+  vals = [shared if (i == 0 or rng.random() < 0.5) else rng.choice([(shared, "x"), i, [i]]) for i in range(width)]
+  box = Box(*vals)
+  shape = rng.randrange(3)
+  root = [{"box": box, "other": [shared]}, [box, shared, (box,)], fdl.Config(l2.fd, x=box, y=[shared])][shape]
+  own = daglish.NodeTraverserRegistry(use_fallback=True)
+  chained = daglish.NodeTraverserRegistry(use_fallback=own)
+  kw = lambda reg: {} if reg is None else {"registry": reg}
+  registries = {"default": None, "fallback": own, "chained-fallback": chained}
+  replay = {"label": label, "width": width, "shape": shape, "values": repr(vals)}
+  res.evaluations += 1
+  res.count("late-registration")
+  # before: a leaf everywhere (this is what fills any per-registry lookup table)
+  for name, reg in registries.items():
+    before = [p for v, p in daglish.iterate(root, memoized=False, **kw(reg))]
+    daglish.collect_paths_by_id(root, memoizable_only=True, **kw(reg))
+    if any(len(p) > 1 and daglish.follow_path(root, p[:-1]) is box for p in before):
+      res.failures.append(Failure(None, f"C08 {label}: an unregistered class is traversed ({name} registry)", replay))
+      return
+  fdl.Config(l2.fd, x=box) == fdl.Config(l2.fd, x=box)      # the defaults-aware registry sees it as a leaf
+  if rng.random() < 0.5:
+    try:
+      serialization.dump_json(fdl.Config(l2.fd, x=[box]))     # so does the serialization registry
+    except Exception:  # pylint: disable=broad-except
+      pass
+  daglish.register_node_traverser(
+      Box,
+      flatten_fn=lambda b: (tuple(getattr(b, f) for f in fields), None),
+      unflatten_fn=lambda values, _: Box(*values),
+      path_elements_fn=lambda b: tuple(daglish.Attr(f) for f in fields))
+
+  def walk(x, path, out):
+    out.append((path, x))
+    if isinstance(x, Box):
+      for f in fields:
+        walk(getattr(x, f), path + (daglish.Attr(f),), out)
+    elif isinstance(x, config_lib.Buildable):
+      for k, v in x.__arguments__.items():
+        walk(v, path + (daglish.Attr(k),), out)
+    elif isinstance(x, dict):
+      for k, v in x.items():
+        walk(v, path + (daglish.Key(k),), out)
+    elif isinstance(x, (list, tuple)):
+      for i, v in enumerate(x):
+        walk(v, path + (daglish.Index(i),), out)
+  truth = []
+  walk(root, (), truth)
+  want = sorted(daglish.path_str(p) for p, _ in truth)
+  want_shared = sorted(daglish.path_str(p) for p, v in truth if v is shared)
+  for name, reg in registries.items():
+    pairs = list(daglish.iterate(root, memoized=False, **kw(reg)))
+    for v, p in pairs:
+      if daglish.follow_path(root, p) is not v:
+        res.failures.append(Failure(None, f"C08 {label}: unsound path {daglish.path_str(p)} ({name} registry)", replay))
+        return
+    got = sorted(daglish.path_str(p) for _, p in pairs)
+    if got != want:
+      missing = [x for x in want if x not in got]
+      res.failures.append(Failure(None, f"C08 {label}: after a class was registered as a node type, the un-memoized "
+                                  f"traversal through the {name} registry misses paths {missing[:4]} "
+                                  f"(reports {len(got)} of {len(want)})", replay))
+      return
+    memo = [v for v, _ in daglish.iterate(root, memoized=True, **kw(reg))]
+    if sum(v is shared for v in memo) != 1 or sum(v is box for v in memo) != 1:
+      res.failures.append(Failure(None, f"C08 {label}: memoized traversal ({name} registry) does not visit the shared "
+                                  "list / the registered object exactly once", replay))
+      return
+    by_id = daglish.collect_paths_by_id(root, memoizable_only=True, **kw(reg))
+    got_shared = sorted(daglish.path_str(p) for p in by_id.get(id(shared), []))
+    if got_shared != want_shared:
+      res.failures.append(Failure(None, f"C08 {label}: all paths to a shared list through the {name} registry: "
+                                  f"{got_shared}, expected {want_shared}", replay))
+      return
+    def identity(value, state):
+      return state.map_children(value)
+    rebuilt = identity(root, daglish.MemoizedTraversal(identity, root, **kw(reg)).initial_state())
+    rtruth = []
+    walk(rebuilt, (), rtruth)
+    if sorted(daglish.path_str(p) for p, _ in rtruth) != want:
+      res.failures.append(Failure(None, f"C08 {label}: identity rebuild ({name} registry) changed the structure", replay))
+      return
+    new_box = [v for _, v in rtruth if isinstance(v, Box)]
+    new_shared = {id(v) for p, v in rtruth if daglish.path_str(p) in want_shared}
+    if any(b is box for b in new_box) or len({id(b) for b in new_box}) != 1 or len(new_shared) != 1 \
+        or id(shared) in new_shared:
+      res.failures.append(Failure(None, f"C08 {label}: identity rebuild ({name} registry) did not rebuild the registered "
+                                  "object or lost the sharing inside it", replay))
+      return
+  # the registry behind == (it falls back to the default one) must now look inside as well: two configurations
+  # that hold the SAME registered object but differ in whether a sibling argument aliases a list inside it
+  # differ in sharing (a user class compares by identity, so only the same object can be compared at all)
+  inner = [7]
+  same = Box(*[inner for _ in fields])
+  a = fdl.Config(l2.fd, x=same, y=inner)
+  b = fdl.Config(l2.fd, x=same, y=[7])
+  if a == b or not (a == fdl.Config(l2.fd, x=same, y=inner)):
+    res.failures.append(Failure(None, f"C08 {label}: the traversal behind == does not descend into a class registered "
+                                "as a node type after its first comparison (sharing with a list inside it is not seen)",
+                                replay))
+
+
 def run(tier: str, seed: int) -> Result:
   rng = random.Random(seed * 49979687 + 8)
   res = Result()
@@ -463,4 +574,6 @@ def run(tier: str, seed: int) -> Result:
   for i in range(10 if tier == "quick" else 200):
     temporaries_case(rng, res, f"temp#{i}")
     temporary_leaves_case(rng, res, f"templeaf#{i}")
+  for i in range(8 if tier == "quick" else 60):
+    late_registration_case(rng, res, f"late#{seed}_{i}")
   return res
